@@ -178,6 +178,51 @@ impl<T: Qcow2IoOps> Qcow2Dev<T> {
         }
     }
 
+    /// Zero every new cluster which nobody has started on (other than
+    /// `skip`, the clusters of the slices being flushed, which are handled
+    /// with them), wait for those somebody is busy with, and make all data
+    /// written so far durable.  Nothing has been written into a cluster that is still
+    /// marked new, so zeroing it can't destroy anything; whoever writes to
+    /// it later finds it gone from the set and skips the zeroing.
+    pub(crate) async fn settle_new_clusters(&self, skip: &[u64]) -> Qcow2Result<()> {
+        let info = &self.info;
+        let mut handles: Vec<_> = {
+            let map = self.new_cluster.read().await;
+            map.iter()
+                .filter(|(key, _)| !skip.contains(key))
+                .map(|(key, cluster)| (*key, cluster.clone()))
+                .collect()
+        };
+        // (everybody who takes several of these locks takes them in the
+        // same order)
+        handles.sort_by_key(|(key, _)| *key);
+        for (key, cluster) in handles {
+            // whoever holds this lock zeroes (and fills) the cluster and
+            // takes it out of the set before letting go
+            let mut lock = cluster.write().await;
+            if !(*lock) {
+                *lock = true;
+                if let Err(err) = self
+                    .call_fallocate(
+                        key << info.cluster_bits(),
+                        info.cluster_size(),
+                        Qcow2OpsFlags::FALLOCATE_ZERO_RANGE,
+                    )
+                    .await
+                {
+                    *lock = false;
+                    return Err(err);
+                }
+                self.clear_new_cluster(key).await;
+            }
+        }
+
+        // Clusters which left the set earlier have been zeroed (and maybe
+        // written) as well, but none of that is known to be on disk: sync,
+        // whether or not anything had to be done here.
+        self.call_fsync(0, usize::MAX, 0).await
+    }
+
     ///
     /// The slices stay dirty until they have been written *and* synced:
     /// everybody else takes a slice that isn't dirty for being on disk.
@@ -216,71 +261,88 @@ impl<T: Qcow2IoOps> Qcow2Dev<T> {
 
         log::info!("flush caches: count {}", v.len());
 
-        //discard first
-        {
-            for (_, e) in tv {
-                if e.is_dirty() {
-                    // For any cache update and set_dirty(true), write lock
-                    // has to be obtained
-                    #[cfg(qcow2_rs_verif)]
-                    crate::verif::probe("fce:wait-slice-read");
-                    let cache = e.value().read().await;
+        // lock the dirty slices first
+        for (_, e) in tv {
+            if e.is_dirty() {
+                // For any cache update and set_dirty(true), write lock
+                // has to be obtained
+                #[cfg(qcow2_rs_verif)]
+                crate::verif::probe("fce:wait-slice-read");
+                let cache = e.value().read().await;
 
-                    // no cache update can happen from now on (it needs the
-                    // write lock); dirty is cleared at the end
-                    flushing.push(e);
+                // no cache update can happen from now on (it needs the
+                // write lock); dirty is cleared at the end
+                flushing.push(e);
 
-                    match cache.get_offset() {
-                        Some(cache_off) => {
-                            let key = cache_off >> info.cluster_bits();
-
-                            if let Entry::Vacant(slot) = cluster_map.entry(key) {
-                                #[cfg(qcow2_rs_verif)]
-                                crate::verif::probe("fce:wait-map-read");
-                                // Take a handle of the per-cluster lock and let the
-                                // map go before waiting for it: whoever holds that
-                                // lock may need the map's write lock to finish.
-                                let cluster = self.new_cluster.read().await.get(&key).cloned();
-                                // keep this cluster locked, so that concurrent discard can
-                                // be avoided
-                                if let Some(cluster) = cluster {
-                                    #[cfg(qcow2_rs_verif)]
-                                    crate::verif::probe("fce:wait-cluster-write");
-                                    let mut locked_cls = cluster.write().await;
-
-                                    log::debug!(
-                                        "flush_cache_entries: discard cluster {:x} done {}",
-                                        info.cluster_round_down(cache_off),
-                                        *locked_cls
-                                    );
-                                    if !(*locked_cls) {
-                                        // mark it as discarded, so others can observe it after
-                                        // grabbing write lock
-                                        *locked_cls = true;
-                                        #[cfg(qcow2_rs_verif)]
-                                        crate::verif::probe("fce:zero-new-meta-cluster");
-                                        f_vec.push(self.call_fallocate(
-                                            info.cluster_round_down(cache_off),
-                                            info.cluster_size(),
-                                            Qcow2OpsFlags::FALLOCATE_ZERO_RANGE,
-                                        ));
-                                        slot.insert(locked_cls);
-                                    }
-                                }
-                            }
-                        }
-                        _ => {
-                            eprintln!("flush cache: dirty cache without offset");
-                        }
-                    }
-                    // holding this cache's read block until this flush is done
-                    cache_vec.push(cache);
-                }
+                // holding this cache's read block until this flush is done
+                cache_vec.push(cache);
             }
         }
 
         if cache_vec.is_empty() {
             return Ok(());
+        }
+
+        if refcount_first {
+            // The l2 slices are locked against new mappings now.  A mapping
+            // in them may point to a data cluster that is still 'new': not
+            // zeroed yet, its writer not even started (or its zeroing
+            // failed).  Such a mapping must not reach the disk before the
+            // cluster is zeroed, or a crash / reopen shows what the cluster
+            // held before.
+            let own: Vec<u64> = cache_vec
+                .iter()
+                .filter_map(|c| c.get_offset())
+                .map(|off| off >> info.cluster_bits())
+                .collect();
+            self.settle_new_clusters(&own).await?;
+        }
+
+        //discard first
+        for cache in cache_vec.iter() {
+            match cache.get_offset() {
+                Some(cache_off) => {
+                    let key = cache_off >> info.cluster_bits();
+
+                    if let Entry::Vacant(slot) = cluster_map.entry(key) {
+                        #[cfg(qcow2_rs_verif)]
+                        crate::verif::probe("fce:wait-map-read");
+                        // Take a handle of the per-cluster lock and let the
+                        // map go before waiting for it: whoever holds that
+                        // lock may need the map's write lock to finish.
+                        let cluster = self.new_cluster.read().await.get(&key).cloned();
+                        // keep this cluster locked, so that concurrent discard can
+                        // be avoided
+                        if let Some(cluster) = cluster {
+                            #[cfg(qcow2_rs_verif)]
+                            crate::verif::probe("fce:wait-cluster-write");
+                            let mut locked_cls = cluster.write().await;
+
+                            log::debug!(
+                                "flush_cache_entries: discard cluster {:x} done {}",
+                                info.cluster_round_down(cache_off),
+                                *locked_cls
+                            );
+                            if !(*locked_cls) {
+                                // mark it as discarded, so others can observe it after
+                                // grabbing write lock
+                                *locked_cls = true;
+                                #[cfg(qcow2_rs_verif)]
+                                crate::verif::probe("fce:zero-new-meta-cluster");
+                                f_vec.push(self.call_fallocate(
+                                    info.cluster_round_down(cache_off),
+                                    info.cluster_size(),
+                                    Qcow2OpsFlags::FALLOCATE_ZERO_RANGE,
+                                ));
+                                slot.insert(locked_cls);
+                            }
+                        }
+                    }
+                }
+                _ => {
+                    eprintln!("flush cache: dirty cache without offset");
+                }
+            }
         }
 
         let mut res = Ok(());
